@@ -141,8 +141,15 @@ fn play(rng: &mut Rng, r: &mut Report, rp: &dyn Fn() -> Json, continue_existing:
         } else if choice == 1 && !open_block {
             // open a function + block so that later block instructions succeed
             let f = b.begin_function(pool[0], None, rspirv::spirv::FunctionControl::NONE, pool[1]);
-            let l = b.begin_block(None);
-            log.push(format!("begin_function -> {:?}; begin_block -> {:?}", f.as_ref().ok(), l.as_ref().ok()));
+            // (a block opened without a label instruction still gets a fresh id of its own)
+            let no_label = rng.chance(1, 3);
+            let l = if no_label { b.begin_block_no_label(None) } else { b.begin_block(None) };
+            log.push(format!("begin_function -> {:?}; begin_block{} -> {:?}", f.as_ref().ok(), if no_label { "_no_label" } else { "" }, l.as_ref().ok()));
+            if let (Ok(fid), Ok(lid)) = (&f, &l) {
+                if *fid != next_before || *lid != next_before + 1 || b.verif_next_id() != next_before + 2 {
+                    fail!(format!("fresh-id:begin_block{}", if no_label { "_no_label" } else { "" }), format!("function id {} and block id {} with the next id {} beforehand and {} afterwards", fid, lid, next_before, b.verif_next_id()));
+                }
+            }
             for x in [f.ok(), l.ok()].into_iter().flatten() {
                 fresh_ids.push(x);
             }
